@@ -48,7 +48,20 @@ TransportFailed(ev) ==
     \cup (IF ev.after.exc = "" /\ Len(ev.after.v) = Len(ev.before) /\ ev.after.v # ev.before
           THEN {ev.via \o "/record_content_preserved"} ELSE {})
 
+(* a batch whose tasks each need each_ms on c workers cannot finish before ceil(n/c) * each_ms: when that lower bound
+   clearly exceeds the timeout (by 20 %) the caller must get an error (the timeout bounds the whole batch, whatever the
+   relative completion order); with one worker the timeout is documented as ignored; a result, when returned, is the
+   sequential one *)
+TimedFailed(ev) ==
+    LET bound == ((ev.n + ev.cpus - 1) \div ev.cpus) * ev.each_ms IN
+    (IF ev.cpus > 1 /\ 10 * bound > 12 * ev.timeout_ms /\ ev.ret.exc = "" THEN {"parallel_function/timeout_surfaces"} ELSE {})
+    \cup (IF ev.ret.exc = "" /\ ev.ret.v # [i \in 1..ev.n |-> i]
+          THEN (IF Len(ev.ret.v) # ev.n THEN {"parallel_function/never_a_shorter_list"} ELSE {"parallel_function/results_in_argument_order"})
+          ELSE {})
+    \cup (IF 2 * bound < ev.timeout_ms /\ ev.cpus = 1 /\ ev.ret.exc # "" THEN {"parallel_function/no_exception:" \o ev.ret.exc} ELSE {})
+
 Failed(ev) == CASE ev.op = "call" -> CallFailed(ev)
+                [] ev.op = "timed" -> TimedFailed(ev)
                 [] ev.op = "exec" -> ExecFailed(ev)
                 [] ev.op = "transport" -> TransportFailed(ev)
                 [] OTHER -> {"trace/unknown_op"}
